@@ -225,6 +225,12 @@ class J1939_21:
                             if should_break:
                                 break
 
+                        if (buf['state'] == self.SendBufferState.SENDING_IN_CTS) and (buf['next_packet_to_send'] >= buf['num_packages']):
+                            # a CTS was received although every packet has already been sent:
+                            # nothing to send for it, wait for the next CTS or the end-of-message ack
+                            buf['state'] = self.SendBufferState.WAITING_CTS
+                            buf['deadline'] = time.time() + self.Timeout.T3
+
                         # recalc next wakeup
                         if next_wakeup > buf['deadline']:
                             next_wakeup = buf['deadline']
